@@ -296,7 +296,7 @@ theorem reopen_get (t : Tree K V) (k : K) :
 /-! ### reads of an unmetered state -/
 
 theorem get_unmetered (c : Cfg K V) (s : St K V) (hm : s.metered = false) (k : K) :
-    s.get c k = (s, view c s k) := by
+    s.get c k = (s, .val (view c s k)) := by
   unfold St.get view blockView St.cacheGet dec
   simp only [hm]
   cases s.sess.bind (alookup k) with
@@ -322,7 +322,21 @@ theorem has_unmetered (c : Cfg K V) (s : St K V) (hm : s.metered = false) (k : K
 /-- one step of the fold inside `St.iter` -/
 def iterStep (c : Cfg K V) (acc : St K V × List (K × Option V)) (k : K) :
     St K V × List (K × Option V) :=
-  if acc.1.deleted c k then acc else ((acc.1.get c k).1, acc.2 ++ [(k, (acc.1.get c k).2)])
+  if acc.1.deleted c k then acc
+  else
+    match acc.1.get c k with
+    | (s', .val v) => (s', acc.2 ++ [(k, v)])
+    | (s', .errGas) => (s', acc.2)
+
+/-- the state after one step of the fold: untouched, or the state after the `get` -/
+theorem iterStep_fst (c : Cfg K V) (acc : St K V × List (K × Option V)) (k : K) :
+    (iterStep c acc k).1 = acc.1 ∨ (iterStep c acc k).1 = (acc.1.get c k).1 := by
+  unfold iterStep
+  split
+  · exact Or.inl rfl
+  · split
+    · next h => right; rw [h]
+    · next h => right; rw [h]
 
 theorem iter_eq_foldl (c : Cfg K V) (s : St K V) (lo hi : Option K) (asc : Bool) :
     s.iter c lo hi asc = (s.tree.rangeKeys c lo hi asc).foldl (iterStep c) (s, []) := rfl
@@ -412,6 +426,7 @@ theorem get_fst (c : Cfg K V) (s : St K V) (k : K) :
   · split
     · next h => right; rw [h]
     · next h => right; rw [h]
+    · next h => right; rw [h]
 
 theorem has_fst (c : Cfg K V) (s : St K V) (k : K) :
     (s.has c k).1 = s ∨ (s.has c k).1 = (s.cacheHas k).1 := by
@@ -420,7 +435,7 @@ theorem has_fst (c : Cfg K V) (s : St K V) (k : K) :
   · exact Or.inl rfl
   · split
     · next h => right; rw [h]
-    · next h => right; rw [h]
+    · next h => right; rw [h]; split <;> rfl
 
 theorem get_gasOnly (c : Cfg K V) (s : St K V) (k : K) : GasOnly s (s.get c k).1 := by
   rcases get_fst c s k with h | h <;> rw [h]
@@ -439,8 +454,7 @@ theorem iter_foldl_gasOnly (c : Cfg K V) (ks : List K) (acc : St K V × List (K 
   | cons k t ih =>
     rw [List.foldl_cons]
     refine GasOnly.trans ?_ (ih _)
-    unfold iterStep
-    split
+    rcases iterStep_fst c acc k with h | h <;> rw [h]
     · exact GasOnly.refl _
     · exact get_gasOnly c acc.1 k
 
@@ -882,5 +896,515 @@ theorem run_session_writes (c : Cfg K V) (s : St K V) (hm : s.metered = false)
         exact ⟨o', h'⟩
     · rw [step_read_unmetered c s hm op h]
       exact ih s hm o hs hw'
+
+/-! ### reads of an arbitrary state, metered or not (the repaired `State.Get` / `State.Exists`) -/
+
+theorem addGas_zero (s : St K V) : s.addGas 0 = s := by
+  obtain ⟨se, ca, me, ⟨l, g⟩, tr⟩ := s
+  simp [St.addGas]
+
+theorem addGas_addGas (s : St K V) (a b : Int) : (s.addGas a).addGas b = s.addGas (a + b) := by
+  simp [St.addGas, Int.add_assoc]
+
+theorem addGas_gasOnly (s : St K V) (d : Int) (hd : 0 ≤ d) : GasOnly s (s.addGas d) := by
+  refine ⟨rfl, rfl, rfl, rfl, ?_⟩
+  simp only [St.addGas]; omega
+
+theorem view_addGas (c : Cfg K V) (s : St K V) (d : Int) : view c (s.addGas d) = view c s := rfl
+theorem deleted_addGas (c : Cfg K V) (s : St K V) (d : Int) (k : K) :
+    (s.addGas d).deleted c k = s.deleted c k := rfl
+theorem readCost_addGas (c : Cfg K V) (s : St K V) (d : Int) (k : K) :
+    readCost c (s.addGas d) k = readCost c s k := rfl
+
+theorem iterCost_addGas (c : Cfg K V) (s : St K V) (d : Int) (ks : List K) :
+    iterCost c (s.addGas d) ks = iterCost c s ks := by
+  induction ks with
+  | nil => rfl
+  | cons k t ih => simp only [iterCost, ih]; rfl
+
+theorem readCost_nonneg (c : Cfg K V) (s : St K V) (k : K) : 0 ≤ readCost c s k := by
+  unfold readCost
+  split
+  · exact Int.le_refl _
+  · split
+    · split <;> omega
+    · exact Int.le_refl _
+
+/-- a served read through the metered cache costs at least the flat read cost -/
+theorem readCost_ge (c : Cfg K V) (s : St K V) (k : K) (hm : s.metered = true)
+    (hs : s.sess.bind (alookup k) = none) : 20 ≤ readCost c s k := by
+  unfold readCost
+  rw [hs]
+  simp only [hm, if_true]
+  split <;> omega
+
+theorem readCost_sess (c : Cfg K V) (s : St K V) (k : K)
+    (hs : (s.sess.bind (alookup k)).isSome = true) : readCost c s k = 0 := by
+  unfold readCost
+  cases h : s.sess.bind (alookup k) with
+  | none => rw [h] at hs; cases hs
+  | some v => rfl
+
+theorem readCost_unmetered (c : Cfg K V) (s : St K V) (k : K) (hm : s.metered = false) :
+    readCost c s k = 0 := by
+  unfold readCost
+  split
+  · rfl
+  · simp [hm]
+
+theorem iterCost_nonneg (c : Cfg K V) (s : St K V) (ks : List K) : 0 ≤ iterCost c s ks := by
+  induction ks with
+  | nil => exact Int.le_refl _
+  | cons k t ih =>
+    simp only [iterCost]
+    have := readCost_nonneg c s k
+    split <;> omega
+
+/-- `State.Get`, exactly: refused by the meter (nothing changes), or the view, charged `readCost` -/
+theorem get_exact (c : Cfg K V) (s : St K V) (k : K) :
+    s.get c k = if Refused s k then (s, .errGas)
+                else (s.addGas (readCost c s k), .val (view c s k)) := by
+  cases hs : s.sess.bind (alookup k) with
+  | some v => simp [St.get, view, readCost, Refused, hs, addGas_zero, dec]
+  | none =>
+    cases hm : s.metered with
+    | false =>
+      simp only [St.get, view, blockView, readCost, Refused, hs, hm, St.cacheGet]
+      simp only [Bool.false_eq_true, false_and, if_false, addGas_zero]
+      cases alookup k s.cache <;> rfl
+    | true =>
+      by_cases hx : s.gas.consumed ≥ s.gas.limit
+      · simp [St.get, St.cacheGet, Refused, hs, hm, consumeStrict_none _ _ hx, hx]
+      · have hg : s.gas.consumeStrict 20 = some { s.gas with consumed := s.gas.consumed + 20 } := by
+          simp [Gas.consumeStrict, hx]
+        simp only [St.get, view, blockView, readCost, Refused, hs, hm, St.cacheGet, hg, hx]
+        cases alookup k s.cache with
+        | none => simp [St.addGas, hm]
+        | some v => simp [St.addGas, Gas.consumeAlways, dec, Int.add_assoc, hm]
+
+theorem get_val_or_refused (c : Cfg K V) (s : St K V) (k : K) :
+    (s.get c k = (s.addGas (readCost c s k), .val (view c s k)) ∧ ¬ Refused s k) ∨
+    (s.get c k = (s, .errGas) ∧ Refused s k) := by
+  rw [get_exact]
+  by_cases h : Refused s k
+  · right; simp [h]
+  · left; simp [h]
+
+/-- `State.Exists`, exactly: always the view; charged the flat read cost iff the metered cache was
+    asked while gas was left -/
+theorem has_exact (c : Cfg K V) (s : St K V) (k : K) :
+    s.has c k =
+      (s.addGas (if (s.sess.bind (alookup k)).isSome = false ∧ s.metered = true ∧
+                    s.gas.consumed < s.gas.limit then 20 else 0),
+       (view c s k).isSome) := by
+  cases hs : s.sess.bind (alookup k) with
+  | some v =>
+    by_cases hv : v = c.tomb <;> simp [St.has, view, St.deleted, dec, hs, hv, addGas_zero]
+  | none =>
+    cases hm : s.metered with
+    | false =>
+      cases h2 : alookup k s.cache with
+      | some v =>
+        by_cases hv : v = c.tomb <;>
+          simp [St.has, view, blockView, St.cacheHas, St.deleted, dec, hs, h2, hm, hv, addGas_zero]
+      | none =>
+        simp [St.has, view, blockView, St.cacheHas, Tree.has, Tree.get, hs, h2, hm, addGas_zero]
+    | true =>
+      by_cases hx : s.gas.consumed ≥ s.gas.limit
+      · have hx' : ¬ s.gas.consumed < s.gas.limit := by omega
+        cases h2 : alookup k s.cache with
+        | some v =>
+          by_cases hv : v = c.tomb <;>
+            simp [St.has, view, blockView, St.cacheHas, St.deleted, dec, hs, h2, hm, hv, addGas_zero,
+              consumeStrict_none _ _ hx, hx']
+        | none =>
+          simp [St.has, view, blockView, St.cacheHas, Tree.has, Tree.get, hs, h2, hm, addGas_zero,
+            consumeStrict_none _ _ hx, hx']
+      · have hx' : s.gas.consumed < s.gas.limit := by omega
+        have hg : s.gas.consumeStrict 20 = some { s.gas with consumed := s.gas.consumed + 20 } := by
+          simp [Gas.consumeStrict, hx]
+        cases h2 : alookup k s.cache with
+        | some v =>
+          by_cases hv : v = c.tomb <;>
+            simp [St.has, view, blockView, St.cacheHas, St.deleted, dec, hs, h2, hm, hv, St.addGas,
+              hg, hx']
+        | none =>
+          simp [St.has, view, blockView, St.cacheHas, Tree.has, Tree.get, hs, h2, hm, St.addGas,
+            hg, hx']
+
+/-! ### iteration over an arbitrary state -/
+
+theorem iterStep_deleted (c : Cfg K V) (s : St K V) (acc : List (K × Option V)) (k : K)
+    (hd : s.deleted c k = true) : iterStep c (s, acc) k = (s, acc) := by
+  simp [iterStep, hd]
+
+theorem iterStep_served (c : Cfg K V) (s : St K V) (acc : List (K × Option V)) (k : K)
+    (hd : ¬ s.deleted c k = true) (hr : ¬ Refused s k) :
+    iterStep c (s, acc) k = (s.addGas (readCost c s k), acc ++ [(k, view c s k)]) := by
+  simp [iterStep, hd, get_exact, hr]
+
+theorem iterStep_refused (c : Cfg K V) (s : St K V) (acc : List (K × Option V)) (k : K)
+    (hd : ¬ s.deleted c k = true) (hr : Refused s k) : iterStep c (s, acc) k = (s, acc) := by
+  simp [iterStep, hd, get_exact, hr]
+
+/-- enough gas for all the reads: nothing is missing, the charge is `iterCost` -/
+theorem iter_foldl_enough_gas (c : Cfg K V) (ks : List K) (s : St K V) (acc : List (K × Option V))
+    (h : s.metered = true → s.gas.consumed + iterCost c s ks ≤ s.gas.limit) :
+    ks.foldl (iterStep c) (s, acc) = (s.addGas (iterCost c s ks), acc ++ listed c s ks) := by
+  induction ks generalizing s acc with
+  | nil => simp [iterCost, addGas_zero, listed]
+  | cons k t ih =>
+    rw [List.foldl_cons]
+    have hn := iterCost_nonneg c s t
+    by_cases hd : s.deleted c k = true
+    · rw [iterStep_deleted c s acc k hd, ih s acc]
+      · simp [iterCost, hd, listed]
+      · intro hm
+        have := h hm
+        simp only [iterCost, hd, if_true] at this
+        omega
+    · have hr : ¬ Refused s k := by
+        rintro ⟨hm, hx, hs⟩
+        have h1 := h hm
+        have h2 := readCost_ge c s k hm hs
+        simp only [iterCost, hd] at h1
+        simp only [Bool.false_eq_true, if_false] at h1
+        omega
+      rw [iterStep_served c s acc k hd hr, ih]
+      · rw [addGas_addGas, iterCost_addGas]
+        simp [iterCost, hd, listed]
+        rfl
+      · intro hm
+        have h1 := h hm
+        simp only [iterCost, hd] at h1
+        simp only [Bool.false_eq_true, if_false] at h1
+        rw [iterCost_addGas]
+        simp only [St.addGas]
+        omega
+
+/-- gas used up: the state does not move and only the session's keys are listed -/
+theorem iter_foldl_exhausted (c : Cfg K V) (s : St K V) (hm : s.metered = true)
+    (hx : s.gas.consumed ≥ s.gas.limit) (ks : List K) (acc : List (K × Option V)) :
+    ks.foldl (iterStep c) (s, acc) = (s, acc ++ listedSess c s ks) := by
+  induction ks generalizing acc with
+  | nil => simp [listedSess]
+  | cons k t ih =>
+    rw [List.foldl_cons]
+    by_cases hd : s.deleted c k = true
+    · rw [iterStep_deleted c s acc k hd, ih]
+      simp [listedSess, hd]
+    · cases hs : s.sess.bind (alookup k) with
+      | none =>
+        rw [iterStep_refused c s acc k hd ⟨hm, hx, hs⟩, ih]
+        simp [listedSess, hd, hs]
+      | some v =>
+        have hr : ¬ Refused s k := by
+          rintro ⟨_, _, h⟩; rw [hs] at h; cases h
+        rw [iterStep_served c s acc k hd hr, readCost_sess c s k (by simp [hs]), addGas_zero, ih]
+        simp [listedSess, hd, hs]
+
+/-- the general form: the reads are served up to a cut-off point `n` (where the meter ran out),
+    after which only the keys answered by the session are listed -/
+theorem iter_foldl_cutoff (c : Cfg K V) (ks : List K) (s : St K V) (acc : List (K × Option V)) :
+    ∃ n, n ≤ ks.length ∧
+      ks.foldl (iterStep c) (s, acc) =
+        (s.addGas (iterCost c s (ks.take n)),
+         acc ++ (listed c s (ks.take n) ++ listedSess c s (ks.drop n))) ∧
+      (n < ks.length → s.metered = true ∧ s.gas.limit ≤ s.gas.consumed + iterCost c s (ks.take n)) := by
+  induction ks generalizing s acc with
+  | nil => exact ⟨0, Nat.le_refl _, by simp [iterCost, addGas_zero, listed, listedSess], by simp⟩
+  | cons k t ih =>
+    by_cases hd : s.deleted c k = true
+    · obtain ⟨n, hn, he, hl⟩ := ih s acc
+      refine ⟨n + 1, by simp [hn], ?_, ?_⟩
+      · rw [List.foldl_cons, iterStep_deleted c s acc k hd, he]
+        simp [iterCost, hd, listed]
+      · intro h
+        have := hl (by simpa using h)
+        simpa [iterCost, hd] using this
+    · by_cases hr : Refused s k
+      · refine ⟨0, Nat.zero_le _, ?_, ?_⟩
+        · rw [iter_foldl_exhausted c s hr.1 hr.2.1]
+          simp [iterCost, addGas_zero, listed]
+        · intro _
+          exact ⟨hr.1, by simpa [iterCost] using hr.2.1⟩
+      · obtain ⟨n, hn, he, hl⟩ := ih (s.addGas (readCost c s k)) (acc ++ [(k, view c s k)])
+        refine ⟨n + 1, by simp [hn], ?_, ?_⟩
+        · rw [List.foldl_cons, iterStep_served c s acc k hd hr, he, addGas_addGas, iterCost_addGas]
+          simp [iterCost, hd, listed, listedSess]
+          rfl
+        · intro h
+          have := hl (by simpa using h)
+          rw [iterCost_addGas] at this
+          refine ⟨this.1, ?_⟩
+          have h2 := this.2
+          simp only [St.addGas] at h2
+          simp only [List.take_succ_cons, iterCost, hd]
+          simp only [Bool.false_eq_true, if_false]
+          omega
+
+theorem filter_sublist_of_imp {α : Type} (p q : α → Bool) (l : List α)
+    (h : ∀ a, p a = true → q a = true) : (l.filter p).Sublist (l.filter q) := by
+  induction l with
+  | nil => exact List.Sublist.refl _
+  | cons a t ih =>
+    by_cases hp : p a = true
+    · rw [List.filter_cons_of_pos hp, List.filter_cons_of_pos (h a hp)]
+      exact ih.cons_cons a
+    · rw [List.filter_cons_of_neg hp]
+      by_cases hq : q a = true
+      · rw [List.filter_cons_of_pos hq]; exact ih.cons a
+      · rw [List.filter_cons_of_neg hq]; exact ih
+
+theorem listedSess_sublist (c : Cfg K V) (s : St K V) (ks : List K) :
+    (listedSess c s ks).Sublist (listed c s ks) := by
+  unfold listedSess listed
+  refine List.Sublist.map _ (filter_sublist_of_imp _ _ _ ?_)
+  intro k hk
+  simp only [Bool.and_eq_true] at hk
+  exact hk.1
+
+theorem listed_append (c : Cfg K V) (s : St K V) (a b : List K) :
+    listed c s (a ++ b) = listed c s a ++ listed c s b := by
+  simp [listed]
+
+theorem iter_cutoff (c : Cfg K V) (s : St K V) (lo hi : Option K) (asc : Bool) :
+    ∃ n, n ≤ (s.tree.rangeKeys c lo hi asc).length ∧
+      s.iter c lo hi asc =
+        (s.addGas (iterCost c s ((s.tree.rangeKeys c lo hi asc).take n)),
+         listed c s ((s.tree.rangeKeys c lo hi asc).take n) ++
+           listedSess c s ((s.tree.rangeKeys c lo hi asc).drop n)) ∧
+      (n < (s.tree.rangeKeys c lo hi asc).length →
+        s.metered = true ∧
+        s.gas.limit ≤ s.gas.consumed + iterCost c s ((s.tree.rangeKeys c lo hi asc).take n)) := by
+  obtain ⟨n, hn, he, hl⟩ := iter_foldl_cutoff c (s.tree.rangeKeys c lo hi asc) s []
+  refine ⟨n, hn, ?_, hl⟩
+  rw [iter_eq_foldl, he]
+  simp
+
+theorem iter_sublist (c : Cfg K V) (s : St K V) (lo hi : Option K) (asc : Bool) :
+    (s.iter c lo hi asc).2.Sublist (listed c s (s.tree.rangeKeys c lo hi asc)) := by
+  obtain ⟨n, _, he, _⟩ := iter_cutoff c s lo hi asc
+  rw [he]
+  have : listed c s (s.tree.rangeKeys c lo hi asc) =
+      listed c s ((s.tree.rangeKeys c lo hi asc).take n) ++
+        listed c s ((s.tree.rangeKeys c lo hi asc).drop n) := by
+    rw [← listed_append, List.take_append_drop]
+  rw [this]
+  exact List.Sublist.append (List.Sublist.refl _) (listedSess_sublist c s _)
+
+theorem mem_listed (c : Cfg K V) (s : St K V) (ks : List K) (k : K) (hk : k ∈ ks)
+    (hd : s.deleted c k = false) : (k, view c s k) ∈ listed c s ks := by
+  unfold listed
+  exact List.mem_map.mpr ⟨k, List.mem_filter.mpr ⟨hk, by simp [hd]⟩, rfl⟩
+
+theorem mem_listedSess (c : Cfg K V) (s : St K V) (ks : List K) (k : K) (hk : k ∈ ks)
+    (hd : s.deleted c k = false) (hs : (s.sess.bind (alookup k)).isSome = true) :
+    (k, view c s k) ∈ listedSess c s ks := by
+  unfold listedSess
+  exact List.mem_map.mpr ⟨k, List.mem_filter.mpr ⟨hk, by simp [hd, hs]⟩, rfl⟩
+
+/-- a key of the range is missing from the listing only if it is deleted in an overlay or its
+    read was refused: the meter is on, ran out by the end, and the session does not hold the key -/
+theorem iter_missing (c : Cfg K V) (s : St K V) (lo hi : Option K) (asc : Bool) (k : K)
+    (hk : k ∈ s.tree.rangeKeys c lo hi asc) (hd : s.deleted c k = false)
+    (hmiss : (k, view c s k) ∉ (s.iter c lo hi asc).2) :
+    s.metered = true ∧ s.gas.limit ≤ (s.iter c lo hi asc).1.gas.consumed ∧
+    s.sess.bind (alookup k) = none := by
+  obtain ⟨n, _, he, hl⟩ := iter_cutoff c s lo hi asc
+  rw [he] at hmiss ⊢
+  simp only [List.mem_append, not_or] at hmiss
+  rw [← List.take_append_drop n (s.tree.rangeKeys c lo hi asc), List.mem_append] at hk
+  rcases hk with hk | hk
+  · exact absurd (mem_listed c s _ k hk hd) hmiss.1
+  · have hlt : n < (s.tree.rangeKeys c lo hi asc).length := by
+      by_cases h : n < (s.tree.rangeKeys c lo hi asc).length
+      · exact h
+      · rw [List.drop_eq_nil_of_le (by omega)] at hk
+        cases hk
+    refine ⟨(hl hlt).1, (hl hlt).2, ?_⟩
+    cases hs : s.sess.bind (alookup k) with
+    | none => rfl
+    | some v => exact absurd (mem_listedSess c s _ k hk hd (by simp [hs])) hmiss.2
+
+/-! ### every read only advances the gas counter -/
+
+theorem step_read_addGas (c : Cfg K V) (s : St K V) (op : Op K V) (hr : op.isRead = true) :
+    ∃ d, 0 ≤ d ∧ (step c s op).1 = s.addGas d := by
+  cases op <;> simp [Op.isRead] at hr
+  · next k =>
+    show ∃ d, 0 ≤ d ∧ (s.get c k).1 = s.addGas d
+    rw [get_exact]
+    by_cases h : Refused s k
+    · exact ⟨0, Int.le_refl _, by simp [h, addGas_zero]⟩
+    · exact ⟨_, readCost_nonneg c s k, by simp [h]⟩
+  · next k =>
+    show ∃ d, 0 ≤ d ∧ (s.has c k).1 = s.addGas d
+    rw [has_exact]
+    refine ⟨_, ?_, rfl⟩
+    split <;> omega
+  · next lo hi asc =>
+    show ∃ d, 0 ≤ d ∧ (s.iter c lo hi asc).1 = s.addGas d
+    obtain ⟨n, _, he, _⟩ := iter_cutoff c s lo hi asc
+    exact ⟨_, iterCost_nonneg c s _, by rw [he]⟩
+  · exact ⟨0, Int.le_refl _, (addGas_zero s).symm⟩
+  · exact ⟨0, Int.le_refl _, (addGas_zero s).symm⟩
+
+/-! ### writes into an arbitrary state -/
+
+theorem set_exact (c : Cfg K V) (s : St K V) (k : K) (v : V) (hv : v ≠ c.tomb) :
+    (¬ WriteRefused s ∧ (s.set c k v).2 = .ok ∧
+      view c (s.set c k v).1 = upd (view c s) k (some v)) ∨
+    (WriteRefused s ∧ s.set c k v = (s, .errGas)) := by
+  cases hs : s.sess with
+  | some o =>
+    left
+    refine ⟨fun h => (by rw [h.2.2] at hs; cases hs), ?_⟩
+    rw [set_sess c s o hs k v hv]
+    refine ⟨rfl, ?_⟩
+    funext k'
+    simp only [view, upd, hs, Option.bind_some, alookup_upsert]
+    by_cases hk : k' = k <;> simp [hk, dec, hv]
+  | none =>
+    cases hm : s.metered with
+    | false =>
+      left
+      exact ⟨fun h => (by rw [h.1] at hm; cases hm), view_set_gen c s hm k v hv⟩
+    | true =>
+      by_cases hx : s.gas.consumed ≥ s.gas.limit
+      · right
+        exact ⟨⟨hm, hx, hs⟩, by simp [St.set, hs, hm, hv, consumeStrict_none _ _ hx]⟩
+      · left
+        refine ⟨fun h => hx h.2.1, ?_⟩
+        have hg : s.gas.consumeStrict 200 = some { s.gas with consumed := s.gas.consumed + 200 } := by
+          simp [Gas.consumeStrict, hx]
+        simp only [St.set, hs, hm, hv, hg, if_false, if_true, true_and]
+        funext k'
+        simp only [view, upd, hs, Option.bind_none, blockView, alookup_upsert]
+        by_cases hk : k' = k <;> simp [hk, dec, hv]
+
+theorem del_exact (c : Cfg K V) (s : St K V) (k : K) :
+    (¬ WriteRefused s ∧ view c (s.del c k) = upd (view c s) k none) ∨
+    (WriteRefused s ∧ s.del c k = s) := by
+  cases hs : s.sess with
+  | some o =>
+    left
+    refine ⟨fun h => (by rw [h.2.2] at hs; cases hs), ?_⟩
+    rw [del_sess c s o hs]
+    funext k'
+    simp only [view, upd, hs, Option.bind_some, alookup_upsert]
+    by_cases hk : k' = k <;> simp [hk, dec]
+  | none =>
+    cases hm : s.metered with
+    | false =>
+      left
+      exact ⟨fun h => (by rw [h.1] at hm; cases hm), view_del_gen c s hm k⟩
+    | true =>
+      by_cases hx : s.gas.consumed ≥ s.gas.limit
+      · right
+        exact ⟨⟨hm, hx, hs⟩, by simp [St.del, hs, hm, consumeStrict_none _ _ hx]⟩
+      · left
+        refine ⟨fun h => hx h.2.1, ?_⟩
+        have hg : s.gas.consumeStrict 50 = some { s.gas with consumed := s.gas.consumed + 50 } := by
+          simp [Gas.consumeStrict, hx]
+        simp only [St.del, hs, hm, hg, if_true]
+        funext k'
+        simp only [view, upd, hs, Option.bind_none, blockView, alookup_upsert]
+        by_cases hk : k' = k <;> simp [hk, dec]
+
+/-- inside an open session of any state, key writes and reads touch only the session and the
+    gas counter -/
+theorem run_session_writes_gen (c : Cfg K V) (s : St K V)
+    (o : List (K × V)) (hs : s.sess = some o) (ws : List (Op K V))
+    (hw : ∀ op ∈ ws, op.isKeyWrite = true ∨ op.isRead = true) :
+    ∃ o' d, 0 ≤ d ∧ (run c s ws).1 = ({ s with sess := some o' } : St K V).addGas d := by
+  induction ws generalizing s o with
+  | nil =>
+    refine ⟨o, 0, Int.le_refl _, ?_⟩
+    rw [addGas_zero]
+    show s = _
+    cases s; simp only at hs; subst hs; rfl
+  | cons op t ih =>
+    have hw' : ∀ op ∈ t, op.isKeyWrite = true ∨ op.isRead = true :=
+      fun x hx => hw x (List.mem_cons_of_mem _ hx)
+    rw [run_cons_fst]
+    rcases hw op List.mem_cons_self with h | h
+    · cases op <;> simp [Op.isKeyWrite] at h
+      · next k v =>
+        by_cases hv : v = c.tomb
+        · have : (step c s (.set k v)).1 = s := by
+            show (s.set c k v).1 = _
+            rw [hv, set_tomb]
+          rw [this]
+          exact ih s o hs hw'
+        · have : (step c s (.set k v)).1 = { s with sess := some (upsert o k v) } := by
+            show (s.set c k v).1 = _
+            rw [set_sess c s o hs k v hv]
+          rw [this]
+          obtain ⟨o', d, hd, h'⟩ := ih { s with sess := some (upsert o k v) } _ rfl hw'
+          exact ⟨o', d, hd, h'⟩
+      · next k =>
+        have : (step c s (.del k)).1 = { s with sess := some (upsert o k c.tomb) } := by
+          show s.del c k = _
+          rw [del_sess c s o hs]
+        rw [this]
+        obtain ⟨o', d, hd, h'⟩ := ih { s with sess := some (upsert o k c.tomb) } _ rfl hw'
+        exact ⟨o', d, hd, h'⟩
+    · obtain ⟨d1, hd1, h1⟩ := step_read_addGas c s op h
+      rw [h1]
+      obtain ⟨o', d, hd, h'⟩ := ih (s.addGas d1) o hs hw'
+      refine ⟨o', d1 + d, by omega, ?_⟩
+      rw [h']
+      simp [St.addGas, Int.add_assoc]
+
+/-! ### the keys of a range -/
+
+theorem mem_insertKey (lt : K → K → Bool) (k x : K) (l : List K) :
+    x ∈ insertKey lt k l ↔ x = k ∨ x ∈ l := by
+  induction l with
+  | nil => simp [insertKey]
+  | cons h t ih =>
+    unfold insertKey
+    split
+    · simp
+    · simp only [List.mem_cons, ih]
+      constructor
+      · rintro (h | h | h)
+        · exact Or.inr (Or.inl h)
+        · exact Or.inl h
+        · exact Or.inr (Or.inr h)
+      · rintro (h | h | h)
+        · exact Or.inr (Or.inl h)
+        · exact Or.inl h
+        · exact Or.inr (Or.inr h)
+
+theorem mem_sortKeys (lt : K → K → Bool) (x : K) (l : List K) : x ∈ sortKeys lt l ↔ x ∈ l := by
+  induction l with
+  | nil => simp [sortKeys]
+  | cons h t ih =>
+    have : sortKeys lt (h :: t) = insertKey lt h (sortKeys lt t) := rfl
+    rw [this, mem_insertKey, ih, List.mem_cons]
+
+/-- the keys iteration visits: exactly the keys of the working tree inside `[lo, hi)` -/
+theorem mem_rangeKeys (c : Cfg K V) (t : Tree K V) (lo hi : Option K) (asc : Bool) (k : K) :
+    k ∈ t.rangeKeys c lo hi asc ↔
+      k ∈ akeys t.working ∧ (∀ l, lo = some l → c.lt k l = false) ∧
+      (∀ h, hi = some h → c.lt k h = true) := by
+  unfold Tree.rangeKeys
+  simp only
+  have hm : ∀ ks : List K, (k ∈ (if asc then ks else ks.reverse)) ↔ k ∈ ks := by
+    intro ks; cases asc <;> simp
+  rw [hm, mem_sortKeys, List.mem_filter]
+  cases lo <;> cases hi <;> simp
+
+theorem mem_listed_iff (c : Cfg K V) (s : St K V) (ks : List K) (p : K × Option V) :
+    p ∈ listed c s ks ↔ p.1 ∈ ks ∧ s.deleted c p.1 = false ∧ p.2 = view c s p.1 := by
+  unfold listed
+  simp only [List.mem_map, List.mem_filter, Bool.not_eq_true']
+  constructor
+  · rintro ⟨k, ⟨hk, hd⟩, rfl⟩
+    exact ⟨hk, hd, rfl⟩
+  · rintro ⟨hk, hd, hv⟩
+    exact ⟨p.1, ⟨hk, hd⟩, by rw [← hv]⟩
 
 end OLP.KV
